@@ -39,17 +39,24 @@ World(name) ==
          [params |-> {"CL", "VC"},
           ctype  |-> [WGT |-> "cont", APGR |-> "both", FA1 |-> "cat"],
           cov0   |-> {<<"CL", "WGT">>, <<"VC", "WGT">>, <<"VC", "APGR">>},
-          occ    |-> "FA1", allovar |-> "WGT", abs0 |-> "INST", noiiv |-> {}]
+          occ    |-> "FA1", allovar |-> "WGT", abs0 |-> "INST", noiiv |-> {}, ndv |-> 1]
+      \* pheno with a metabolite compartment (add_metabolite): two dependent variables Y (DVID 1) and Y_M (DVID 2),
+      \* each with its own proportional error model; only the error-model setters with a dv argument are explored on it
+      [] name = "pheno2dv" ->
+         [params |-> {"CL", "VC"},
+          ctype  |-> [WGT |-> "cont", APGR |-> "both", FA1 |-> "cat"],
+          cov0   |-> {<<"CL", "WGT">>, <<"VC", "WGT">>, <<"VC", "APGR">>},
+          occ    |-> "FA1", allovar |-> "WGT", abs0 |-> "INST", noiiv |-> {}, ndv |-> 2]
       [] name = "phenoexp" ->
          [params |-> {"CL", "V"},
           ctype  |-> [WGT |-> "cont", APGR |-> "both", FA1 |-> "cat"],
           cov0   |-> {<<"CL", "WGT">>, <<"V", "WGT">>, <<"V", "APGR">>},
-          occ    |-> "FA1", allovar |-> "WGT", abs0 |-> "INST", noiiv |-> {"CL"}]
+          occ    |-> "FA1", allovar |-> "WGT", abs0 |-> "INST", noiiv |-> {"CL"}, ndv |-> 1]
       [] OTHER ->
          [params |-> {"CL", "VC", "MAT"},
           ctype  |-> [WT |-> "cont", AGE |-> "cont", SEX |-> "cat", CLCR |-> "cont"],
           cov0   |-> {},
-          occ    |-> "VISI", allovar |-> "WT", abs0 |-> "FO", noiiv |-> {}]
+          occ    |-> "VISI", allovar |-> "WT", abs0 |-> "FO", noiiv |-> {}, ndv |-> 1]
 CovsOf(w) == DOMAIN w.ctype
 EffectsFor(t) == CASE t = "cont" -> ContEffects [] t = "cat" -> CatEffects [] OTHER -> AllEffects
 AlloParams == {"CL", "VC", "V"}     \* clearance and volume parameters
@@ -64,7 +71,8 @@ Start(name) ==
      iov   |-> {},
      tr    |-> "none",
      allo  |-> FALSE,
-     err   |-> [kind |-> "prop", trans |-> "none"],
+     err   |-> [kind |-> "prop", trans |-> "none"],      \* error model of the first (default) dependent variable
+     err2  |-> [kind |-> "prop", trans |-> "none"],      \* ... of the second one (worlds with ndv = 2)
      deco  |-> {},
      abs   |-> w.abs0,
      transits |-> 0]
@@ -89,7 +97,10 @@ ActAddIOV == {A("addiov", p, W.occ, "", "") : p \in W.params}
 ActRmIOV  == {A("rmiov", "", "", "", "")}
 ActTransform == {A("transform", p, "", t, "") : p \in W.params, t \in {"boxcox", "tdist", "john_draper"}}
 ActAllometry == {A("allometry", "", W.allovar, "", "")}
-ActSetErr == {A("seterr", "", "", k, t) : k \in ErrKinds, t \in {"none", "log"}}
+\* set_<x>_error_model(model, dv=c, data_trans=y): c = "" is the default (first) dependent variable; on a model with
+\* two dependent variables the dv argument "1" / "2" is part of the alphabet (additive / proportional, untransformed)
+ActSetErr == IF W.ndv = 1 THEN {A("seterr", "", "", k, t) : k \in ErrKinds, t \in {"none", "log"}}
+             ELSE {A("seterr", "", d, k, "none") : d \in {"1", "2"}, k \in {"add", "prop"}}
 ActRmErr  == {A("rmerr", "", "", "", "")}
 ActDeco   == {A(d, "", "", "", "") : d \in {"power", "iivruv", "timevar", "weighted"}}
 ActAbs    == {A("abs", "", "", a, "") : a \in {"FO", "ZO", "SEQ", "INST"}}
@@ -112,12 +123,12 @@ Enabled(mm, a) ==
       [] a.k = "rmiov"   -> mm.iov # {}
       [] a.k = "transform" -> mm.tr = "none" /\ NIiv(mm, a.p) = 1 /\ mm.iov = {}
       [] a.k = "allometry" -> ~mm.allo
-      [] a.k = "seterr"  -> mm.deco = {}
-      [] a.k = "rmerr"   -> mm.deco = {} /\ mm.err.kind # "none"
-      [] a.k = "power"   -> mm.deco = {} /\ mm.err.kind # "none" /\ mm.err.trans = "none"
-      [] a.k = "iivruv"  -> mm.deco = {} /\ mm.err.kind # "none" /\ mm.err.trans = "none"
-      [] a.k = "timevar" -> mm.deco = {} /\ mm.err.kind # "none" /\ mm.err.trans = "none"
-      [] a.k = "weighted" -> mm.deco = {} /\ mm.err.kind \in {"add", "prop"} /\ mm.err.trans = "none"
+      [] a.k = "seterr"  -> mm.deco = {} /\ (IF w.ndv = 1 THEN a.c = "" ELSE a.c \in {"1", "2"} /\ a.x \in {"add", "prop"} /\ a.y = "none")
+      [] a.k = "rmerr"   -> w.ndv = 1 /\ mm.deco = {} /\ mm.err.kind # "none"
+      [] a.k = "power"   -> w.ndv = 1 /\ mm.deco = {} /\ mm.err.kind # "none" /\ mm.err.trans = "none"
+      [] a.k = "iivruv"  -> w.ndv = 1 /\ mm.deco = {} /\ mm.err.kind # "none" /\ mm.err.trans = "none"
+      [] a.k = "timevar" -> w.ndv = 1 /\ mm.deco = {} /\ mm.err.kind # "none" /\ mm.err.trans = "none"
+      [] a.k = "weighted" -> w.ndv = 1 /\ mm.deco = {} /\ mm.err.kind \in {"add", "prop"} /\ mm.err.trans = "none"
       \* the documented "never run" combinations of C08 are not part of this property's alphabet
       \* (totality of setter sequences is C08's property; SEQ -> INST is its known finding C08-F4)
       [] a.k = "abs"     -> mm.transits = 0 /\ ~(mm.abs = "SEQ" /\ a.x = "INST")
@@ -132,7 +143,8 @@ AlloTargets(mm, a) == {p \in World(mm.model).params \cap AlloParams : <<p, a.c>>
 Noop(mm, a) ==
     \* (an IOV makes the parameter depend on the occasion column: add_covariate_effect then "already exists")
     CASE a.k = "addcov" -> <<a.p, a.c>> \in mm.cov \/ (a.p \in mm.iov /\ a.c = World(mm.model).occ)
-      [] a.k = "seterr" -> mm.err = [kind |-> a.x, trans |-> a.y]
+      \* the dependent variable asked for already has this error model (what the OTHER dependent variable has is irrelevant)
+      [] a.k = "seterr" -> (IF a.c = "2" THEN mm.err2 ELSE mm.err) = [kind |-> a.x, trans |-> a.y]
       [] a.k = "allometry" -> AlloTargets(mm, a) = {}
       [] a.k = "abs"    -> mm.abs = a.x
       [] a.k = "transit" -> mm.transits = (CASE a.x = "0" -> 0 [] a.x = "1" -> 1 [] OTHER -> 3)
@@ -157,7 +169,8 @@ Apply(mm, a) ==
                            !.cov = @ \cup {<<p, a.c>> : p \in AlloTargets(mm, a)},
                            !.ext = [p \in DOMAIN @ |-> IF p \in AlloTargets(mm, a)
                                                        THEN Append(@[p], [k |-> "allo", c |-> a.c]) ELSE @[p]]]
-           [] a.k = "seterr" -> [mm EXCEPT !.err = [kind |-> a.x, trans |-> a.y]]
+           [] a.k = "seterr" -> IF a.c = "2" THEN [mm EXCEPT !.err2 = [kind |-> a.x, trans |-> a.y]]
+                                ELSE [mm EXCEPT !.err = [kind |-> a.x, trans |-> a.y]]
            [] a.k = "rmerr"  -> [mm EXCEPT !.err = [kind |-> "none", trans |-> "none"]]
            [] a.k \in {"power", "iivruv", "timevar", "weighted"} -> [mm EXCEPT !.deco = @ \cup {a.k}]
            [] a.k = "abs" ->
